@@ -26,7 +26,8 @@ TECHNIQUE = ('property-based testing (Hypothesis): injectivity / containment '
 RULE = ('Sets of 2-7 source paths whose components are weighted towards one- '
         'and two-character names, dotted names, equal basenames in different '
         'directories, equal stems with different extensions and ../ '
-        'references out of a submodule (the component PAR is excluded, as the '
+        'references out of a submodule and, one case in six, above the top '
+        'of the source tree (the component PAR is excluded, as the '
         'property states) x target kind (executable, static/shared library, '
         'object_files, copy_files) x intermediate_dirs on/off x explicit '
         'intermediate_dir/directory x submodule depth 0-2.  Non-trivial: >= 2 '
